@@ -53,6 +53,8 @@ func opTargets(op fsOp) []string {
 		return []string{strings.Split(op.Path, "/")[0]}
 	case "reopen", "readpartial":
 		return nil
+	case "symlink":
+		return []string{op.Path}
 	}
 	return []string{op.Path}
 }
@@ -92,6 +94,8 @@ func (sc *fatScen) scenario(memo *acceptMemo) explore.Scenario {
 				add(s.fatckViols(after)...)
 			case "range":
 				add(s.rangeViols(after)...)
+			case "e2fsck":
+				add(s.e2fsckViols(after)...)
 			case "digest":
 				d := s.dev.DigestRange(s.cfg.Start, s.cfg.Start+s.cfg.Size)
 				out.Aux = fmt.Sprintf("%x", d[:12])
@@ -108,7 +112,7 @@ func (sc *fatScen) scenario(memo *acceptMemo) explore.Scenario {
 				}
 				var live map[string]viewNode
 				var verr error
-				if pm := guard(func() { live, verr = fsView(s.fs, true, 700, 1<<22) }); pm != "" {
+				if pm := guard(func() { live, verr = fsView(s.fs, s.model.caseFold, 700, 1<<25) }); pm != "" {
 					add(explore.Viol{Sig: "live|" + pm, Msg: fmt.Sprintf("%s after %s: walking the live filesystem panicked: %s", sc.Cfg, after, pm)})
 					return
 				}
@@ -125,7 +129,7 @@ func (sc *fatScen) scenario(memo *acceptMemo) explore.Scenario {
 						rerr = e
 						return
 					}
-					rv, rerr = fsView(rfs, true, 1<<16, 1<<22)
+					rv, rerr = fsView(rfs, s.model.caseFold, 1<<16, 1<<25)
 				}); pm != "" {
 					add(explore.Viol{Sig: "reopened|" + pm, Msg: fmt.Sprintf("%s after %s: reading the re-opened image panicked: %s", sc.Cfg, after, pm)})
 					return
@@ -157,7 +161,7 @@ func (sc *fatScen) scenario(memo *acceptMemo) explore.Scenario {
 			if !last {
 				if e != nil && sc.Oracle == "model" {
 					// keep the model in step exactly as the judged run did
-					if live, verr := fsView(s.fs, true, 700, 1<<22); verr == nil {
+					if live, verr := fsView(s.fs, s.model.caseFold, 700, 1<<25); verr == nil {
 						s.resync(live, opTargets(op)...)
 					}
 				}
